@@ -614,7 +614,7 @@ def run_history(ctx, case):
 
 def plan(tier, seed):
     if tier == "quick":
-        return [{"task": "hyp", "examples": 400} for _ in range(16)]
+        return [{"task": "hyp", "examples": 700} for _ in range(8)]
     return [{"task": "hyp", "examples": 12000} for _ in range(32)]
 
 
